@@ -428,3 +428,27 @@ func Sampled(spec interface{}, n int) bool {
 
 // Replaying tells whether this process replays a saved case.
 func Replaying() bool { return os.Getenv("VERIF_REPLAY") != "" }
+
+// Pending records the case that is about to run in a side file, so that the
+// driver can turn a death of the whole process (a panic in a goroutine the
+// harness does not own, a fatal runtime error) into a replayable case.
+func (r *Run) Pending(spec interface{}) {
+	p := os.Getenv("VERIF_STATS")
+	if p == "" {
+		return
+	}
+	b, err := json.Marshal(spec)
+	if err != nil {
+		return
+	}
+	fr := failRec{Property: r.ID, Test: r.Test, Sig: "process-death", Msg: "the test process died while running this case", Spec: b}
+	out, _ := json.Marshal(fr)
+	os.WriteFile(p+".pending", out, 0o644)
+}
+
+// Done clears the pending case.
+func (r *Run) Done() {
+	if p := os.Getenv("VERIF_STATS"); p != "" {
+		os.Remove(p + ".pending")
+	}
+}
